@@ -67,6 +67,8 @@ def run(ctx, rep):
                       ('D4.scalar', 'the scalar branch and the vector branch of chandrupatla compute the same interpolation formula'),
                       ('D5.tol', "bisect's default tolerance is at most 1e-8 and its exit test compares the bracket width with it")):
         rep.rule(rid, text)
+    rep.rule('D7.bracket', 'chandrupatla: after the history update of every iteration the two retained ends still enclose a sign change of f (given that they did before), '
+             'and each retained function value belongs to its end - evaluated over the sign cells of (f(a), f(b), f(xt))')
     rep.rule('D6.float', 'an array that receives computed points by in-place lane stores (x[mask] = point) is created as a float array: '
              'integer brackets must not truncate the points stored into them')
     bisect(ctx, rep)
@@ -359,6 +361,137 @@ def _chandrupatla_tolerances(ctx, rep, fn):
                       f'narrower than {v / 1e-9:g}', construct=cons)
 
 
+def _bracket_invariant(ctx, rep, fn, fp, lp):
+    """D7.bracket: the history update keeps a sign change between the two retained ends.  Decided by evaluating the straight-line
+    update over the 21 sign cells (sign f(a), sign f(b), sign f(xt)) with sign f(a) * sign f(b) <= 0: afterwards the value kept
+    with each end is the value of f at that end and the two values do not have the same strict sign."""
+    rule = 'D7.bracket'
+    cons = 'chandrupatla: history update keeps the sign change'
+    pre = []
+    for s_ in fn.body():
+        if s_.lineno >= lp.lineno:
+            break
+        if isinstance(s_, ast.Assign) and len(s_.targets) == 1 and isinstance(s_.targets[0], ast.Name) and isinstance(s_.value, ast.Call) \
+                and isinstance(s_.value.func, ast.Name) and s_.value.func.id == fp and len(s_.value.args) == 1 and isinstance(s_.value.args[0], ast.Name):
+            pre.append((s_.targets[0].id, s_.value.args[0].id))
+    body = list(lp.body)
+    start = None
+    for i, s_ in enumerate(body):
+        if isinstance(s_, ast.Assign) and len(s_.targets) == 1 and isinstance(s_.targets[0], ast.Name) and isinstance(s_.value, ast.Call) \
+                and isinstance(s_.value.func, ast.Name) and s_.value.func.id == fp and len(s_.value.args) == 1 and isinstance(s_.value.args[0], ast.Name):
+            start = i
+            break
+    if len(pre) != 2 or start is None or len({p_[0] for p_ in pre}) != 2:
+        rep.undecided(rule, fn, fn.node.name, 'the two bracket ends with their function values, or the evaluation of the new point, were not recognised', construct=cons)
+        return
+    (fa_n, a_n), (fb_n, b_n) = pre
+    ft_n, xt_n = body[start].targets[0].id, body[start].value.args[0].id
+    tracked = {fa_n, a_n, fb_n, b_n}
+    TOPV = ('top',)
+
+    def ev(e, env):
+        if isinstance(e, ast.Name):
+            return env.get(e.id, TOPV)
+        if isinstance(e, ast.Constant) and isinstance(e.value, (int, float, bool)):
+            return ('b', e.value) if isinstance(e.value, bool) else ('n', (e.value > 0) - (e.value < 0), e.value)
+        if isinstance(e, ast.Call):
+            cn = call_name(e)
+            args = [ev(a_, env) for a_ in e.args]
+            if cn == 'sign' and len(args) == 1 and args[0][0] in ('f', 'n'):
+                return ('n', args[0][1], float(args[0][1]))
+            if cn in ('choose',) and len(e.args) == 2 and isinstance(e.args[1], (ast.List, ast.Tuple)) and len(e.args[1].elts) == 2 and args[0][0] == 'b':
+                return ev(e.args[1].elts[1 if args[0][1] else 0], env)
+            if cn == 'where' and len(args) == 3 and args[0][0] == 'b':
+                return args[1] if args[0][1] else args[2]
+            if cn in ('logical_and', 'logical_or') and len(args) == 2 and args[0][0] == args[1][0] == 'b':
+                return ('b', (args[0][1] and args[1][1]) if cn.endswith('and') else (args[0][1] or args[1][1]))
+            if cn == 'logical_not' and len(args) == 1 and args[0][0] == 'b':
+                return ('b', not args[0][1])
+            if cn in ('asarray', 'array', 'float', 'copy') and len(args) == 1:
+                return args[0]
+            if cn == 'signbit' and len(args) == 1 and args[0][0] in ('f', 'n') and args[0][1] != 0:
+                return ('b', args[0][1] < 0)
+            return TOPV
+        if isinstance(e, ast.UnaryOp):
+            v = ev(e.operand, env)
+            if isinstance(e.op, (ast.Not, ast.Invert)) and v[0] == 'b':
+                return ('b', not v[1])
+            if isinstance(e.op, ast.USub) and v[0] in ('f', 'n'):
+                return (v[0], -v[1]) + ((-v[2],) if v[0] == 'n' else ())
+            return TOPV
+        if isinstance(e, ast.BoolOp):
+            vs = [ev(v_, env) for v_ in e.values]
+            if all(v_[0] == 'b' for v_ in vs):
+                return ('b', all(v_[1] for v_ in vs) if isinstance(e.op, ast.And) else any(v_[1] for v_ in vs))
+            return TOPV
+        if isinstance(e, ast.BinOp):
+            l_, r_ = ev(e.left, env), ev(e.right, env)
+            if isinstance(e.op, (ast.BitAnd, ast.BitOr, ast.BitXor)) and l_[0] == r_[0] == 'b':
+                return ('b', {ast.BitAnd: l_[1] and r_[1], ast.BitOr: l_[1] or r_[1], ast.BitXor: l_[1] != r_[1]}[type(e.op)])
+            if isinstance(e.op, ast.Mult) and l_[0] in ('f', 'n') and r_[0] in ('f', 'n'):
+                # only the sign of a product of signed quantities is kept
+                exact = l_[0] == r_[0] == 'n'
+                return ('n', l_[1] * r_[1], l_[2] * r_[2]) if exact else ('f', l_[1] * r_[1])
+            return TOPV
+        if isinstance(e, ast.Compare) and len(e.ops) == 1:
+            l_, r_ = ev(e.left, env), ev(e.comparators[0], env)
+            op = type(e.ops[0])
+            if l_[0] == r_[0] == 'b' and op in (ast.Eq, ast.NotEq, ast.Is, ast.IsNot):
+                return ('b', (l_[1] == r_[1]) == (op in (ast.Eq, ast.Is)))
+            if l_[0] == r_[0] == 'n':
+                x_, y_ = l_[2], r_[2]
+            elif {l_[0], r_[0]} == {'f', 'n'} and (l_ if l_[0] == 'n' else r_)[2] == 0:
+                x_, y_ = l_[1], r_[1]          # f compared with zero: decided by its sign
+            else:
+                return TOPV
+            fnc = {ast.Eq: x_ == y_, ast.NotEq: x_ != y_, ast.Lt: x_ < y_, ast.LtE: x_ <= y_, ast.Gt: x_ > y_, ast.GtE: x_ >= y_}.get(op)
+            return TOPV if fnc is None else ('b', fnc)
+        if isinstance(e, ast.IfExp):
+            c_ = ev(e.test, env)
+            return ev(e.body if c_[1] else e.orelse, env) if c_[0] == 'b' else TOPV
+        return TOPV
+
+    refuted = None
+    und = None
+    cells = 0
+    for sa in (-1, 0, 1):
+        for sb in (-1, 0, 1):
+            if sa * sb > 0:
+                continue
+            for st in (-1, 0, 1):
+                cells += 1
+                env = {fa_n: ('f', sa), fb_n: ('f', sb), ft_n: ('f', st), a_n: ('p', sa), b_n: ('p', sb), xt_n: ('p', st)}
+                for s_ in body[start + 1:]:
+                    if isinstance(s_, ast.Assign) and len(s_.targets) == 1 and isinstance(s_.targets[0], ast.Name):
+                        env[s_.targets[0].id] = ev(s_.value, env)
+                    elif isinstance(s_, ast.Assign) and len(s_.targets) == 1 and isinstance(s_.targets[0], ast.Tuple) and isinstance(s_.value, ast.Tuple) \
+                            and len(s_.value.elts) == len(s_.targets[0].elts) and all(isinstance(t_, ast.Name) for t_ in s_.targets[0].elts):
+                        vals = [ev(v_, env) for v_ in s_.value.elts]
+                        for t_, v_ in zip(s_.targets[0].elts, vals):
+                            env[t_.id] = v_
+                    else:
+                        stored = {x.id for x in ast.walk(s_) if isinstance(x, ast.Name) and isinstance(x.ctx, ast.Store)} | \
+                                 {x.value.id for x in ast.walk(s_) if isinstance(x, ast.Subscript) and isinstance(x.ctx, ast.Store) and isinstance(x.value, ast.Name)}
+                        for nm in stored & (tracked | {ft_n, xt_n}):
+                            env[nm] = TOPV
+                fa_v, fb_v, a_v, b_v = env[fa_n], env[fb_n], env[a_n], env[b_n]
+                if not (fa_v[0] == fb_v[0] == 'f' and a_v[0] == b_v[0] == 'p'):
+                    und = und or f'cell (sign f({a_n}), sign f({b_n}), sign f({xt_n})) = ({sa}, {sb}, {st}): the updated ends were not derived'
+                    continue
+                if fa_v[1] != a_v[1] or fb_v[1] != b_v[1]:
+                    refuted = refuted or ((sa, sb, st), f'the value kept as `{fa_n if fa_v[1] != a_v[1] else fb_n}` is not f at the point kept as `{a_n if fa_v[1] != a_v[1] else b_n}`')
+                elif fa_v[1] * fb_v[1] > 0:
+                    refuted = refuted or ((sa, sb, st), f'both retained ends have f of strict sign {fa_v[1]:+d}: the sign change (and with it the root) is no longer between them')
+    if refuted:
+        (sa, sb, st), why = refuted
+        rep.bad(rule, fn, body[start], f'for sign f({a_n}) = {sa:+d}, sign f({b_n}) = {sb:+d}, sign f({xt_n}) = {st:+d} (a valid bracket) after the history update {why}',
+                construct=cons)
+    elif und:
+        rep.undecided(rule, fn, body[start], und, construct=cons)
+    else:
+        rep.ok(rule, fn, body[start], f'{cells} sign cells of a valid bracket: each retained value belongs to its end and the two ends never have the same strict sign', construct=cons)
+
+
 def chandrupatla(ctx, rep):
     prog = ctx.prog
     fn = prog.func(OPT + 'chandrupatla')
@@ -386,6 +519,7 @@ def chandrupatla(ctx, rep):
     if not loops:
         return
     lp = loops[0]
+    _bracket_invariant(ctx, rep, fn, fp, lp)
     # the loop is left early only when EVERY lane has terminated
     from ..idioms import resolve as _res
     for ex in [s_ for s_ in ast.walk(lp) if isinstance(s_, ast.If) and any(isinstance(x, ast.Break) for b_ in s_.body for x in ast.walk(b_))]:
